@@ -92,6 +92,8 @@ PROPS = {
         tie_filter=r'task|promiseInsert|promiseUpdate|callback|shape|wiring|uniques',
         harness=[sysdiff('sysdiff-dispatch', ['CreatePromise', 'CreatePromise', 'CreatePromiseAndTask', 'CompletePromise', 'ClaimTask', 'CompleteTask', 'CreateCallback', 'CreateSubscription', 'HeartbeatTasks'],
                          (30, 150), (800, 200), 'C08,C07,C05,C12', ['-routed', '70', '-fail', '20', '-crash', '1', '-smallcfg', '-known', 'F5,F20'], (250, 200)),
+                 sysdiff('sysdiff-dispatch-ids', ['CreatePromise', 'CompletePromise', 'ClaimTask', 'CreateCallback'], (12, 120), (300, 150), 'C08',
+                         ['-routed', '90', '-fail', '3', '-crash', '0', '-hostile', '-known', 'F5,F20'], (120, 150)),
                  storediff('storediff-tasks', TASK_KINDS + ['CreatePromise', 'UpdatePromise', 'CreateCallback', 'DeleteCallbacks'], (20, 30), (500, 40)),
                  dict(bin='routesend', name='routesend', quick=['-cases', '1500'], thorough=['-cases', '20000'], search=['-cases', '6000'])],
         rule='routesend: the REAL router decides which promises are routed (a promise whose tag names a receiver is born with its invocation task only if the router matches it): every tag shape against the model and against two direct clauses (plain strings are logical names, receiver objects are physical receivers); ' + SYS_RULE + '; mixes of routed / unrouted promises (routing tags: logical names, URLs, JSON receivers, non-receiver JSON), callbacks and subscriptions; every hand-off outcome (success / refused / error), router failures, store failures, task batch sizes 1..100; monitors: a routed promise is created with its invocation task, a completed promise leaves none of its previous tasks live, C07 task monotonicity, C05',
@@ -257,12 +259,14 @@ PROPS = {
         pin_filter=r'awaitLoops|coroutineCmds|tick|queueShapes',
         tie_filter=r'^$',
         harness=[sysdiff('sysdiff-backpressure', None, (25, 120), (600, 150), 'C12,C01', ['-smallcfg', '-shutdown', '50', '-fail', '15', '-crash', '1', '-routed', '40', '-known', 'F5'], (200, 150)),
-                 dict(bin='stackrun', name='stackrun', quick=['-rounds', '60'], thorough=['-rounds', '1500'], search=['-rounds', '400'])],
+                 dict(bin='stackrun', name='stackrun', quick=['-rounds', '60'], thorough=['-rounds', '1500'], search=['-rounds', '400']),
+                 dict(bin='frontdiff', name='frontdiff', quick=['-facts', '{gen}/gofacts.json'], thorough=['-facts', '{gen}/gofacts.json'], search=['-facts', '{gen}/gofacts.json'])],
         rule=SYS_RULE + '; queue / batch / pool sizes drawn down to 1 (API queue 1..100, coroutine pool 1..1000, submission batch 1..1000), shutdown requested at a random moment in about half of the scripts, '
              '15% of the submissions fail before or after processing; the C12 monitor counts the responses of every request id on the implementation (never two, none for an id never submitted) and, at the end '
              'of every script, keeps the server running for 8*(outstanding+5) further rounds and requires exactly one response for every request submitted since the last crash; '
              'stackrun: the REAL system.Loop on its own goroutine with the REAL api / aio queues and the REAL store, router and sender worker goroutines, queue / batch / pool sizes 1..10, '
              '1..8 concurrent client goroutines, shutdown requested after a random number of submissions, transports answering from their own goroutines (idle rounds: a quiet server whose last request arrives 150-350 ms after the loop\'s last wake-up with shutdown right behind it); no model (timing is not reproducible): '
+             'frontdiff (both REAL front ends over a stub kernel): every (endpoint, status, shape) is answered, and a request the kernel answers after 1.6 s — longer than the front ends\' one-second shutdown timeout — is still answered over HTTP and gRPC; ' + 
              'every request must be answered exactly once, the kernel must not stall, shutdown must complete; each round in a child process with a watchdog; one round in six is a STORM: twelve clients submit 1500 cheap reads each in a tight loop '
              'into an API queue with room for all of them while shutdown is requested from a goroutine of its own at an arbitrary moment, so that requests are caught inside EnqueueSQE at that instant (counted as storm_rounds)',
         assumptions=['request ids are distinct (the front ends draw a fresh id per request)', 'no process crash between submission and response (responses of in-flight requests die with the process: C06)',
